@@ -459,6 +459,19 @@ struct Enumerator {
           }
         }
       }
+      {  // boundaries of every part
+        static const uint8_t DD[] = {0x00, 0x01, 0x09, 0x0a, 0x10, 0x19, 0x1c, 0x1d, 0x1e, 0x1f, 0x20, 0x28, 0x29, 0x30, 0x31, 0x32, 0x99, 0xff};
+        static const uint8_t MM[] = {0x00, 0x01, 0x02, 0x09, 0x0a, 0x0b, 0x0c, 0x0d, 0x10, 0x11, 0x12, 0x13, 0x99, 0xff};
+        static const uint8_t WW[] = {0x00, 0x03, 0x07};
+        static const uint8_t YY[] = {0x00, 0x01, 0x04, 0x63, 0x64, 0x99, 0x9a, 0xfe, 0xff};
+        for (uint8_t dd : DD) for (uint8_t mm : MM) for (uint8_t ww : WW) for (uint8_t yy : YY) {
+          if (t.bytes == 3 && ww != 0) continue;
+          if (!P.mine()) continue;
+          b[0] = dd; b[1] = mm;
+          if (t.bytes == 3) b[2] = yy; else { b[2] = ww; b[3] = yy; }
+          eval(c, b, t.bytes, FM_TEXT_JSON);
+        }
+      }
       forRawDomain(t, t.bytes, thorough, &P, [&](const uint8_t* r) { eval(c, r, t.bytes, FM_TEXT_JSON); });
       closeCfg(&c);
       // a divisor on a date type is no valid definition
@@ -516,6 +529,14 @@ struct Enumerator {
           if (!P.mine()) continue;
           int v[3] = {h, m, s};
           for (int i = 0; i < 3; i++) b[t.p2 ? 2 - i : i] = encPart(v[i], bcd);
+          eval(c, b, 3, FM_TEXT_JSON);
+        }
+      }
+      if (n == 3) {  // boundaries of every part
+        static const uint8_t TT[] = {0x00, 0x01, 0x09, 0x0a, 0x17, 0x18, 0x19, 0x23, 0x24, 0x25, 0x3b, 0x3c, 0x59, 0x5a, 0x60, 0x63, 0xff};
+        for (uint8_t x : TT) for (uint8_t y : TT) for (uint8_t z : TT) {
+          if (!P.mine()) continue;
+          b[0] = x; b[1] = y; b[2] = z;
           eval(c, b, 3, FM_TEXT_JSON);
         }
       }
